@@ -318,7 +318,14 @@ def structure_flags(text):
     rejects_nul = shape_a or shape_b
     if "memchr" in rp and not rejects_nul:
         raise ExtractFail("wasi.c", "resolvePath: memchr test of an unexpected shape/position")
-    return clears, get_rejects, guard("wasiFDReaddir"), guard("wasiFdFdstatGet"), guard("wasiFDFilestatGet"), whence_first, sync_inval, rejects_nul
+    # does fd_readdir close the native descriptor of the entry (the table is only written through
+    # wasiDirectorySet / wasiFileDescriptorSet; an assignment to the local copy `descriptor` is not a table write)
+    rd = function_body(text, "wasiFDReaddir")
+    rd_closes = re.search(r"\bclose\s*\(\s*descriptor\.fd\s*\)", rd) is not None
+    rd_sets_fd = re.search(r"wasiFileDescriptorSet\s*\(", rd) is not None
+    if rd_sets_fd:
+        raise ExtractFail("wasi.c", "wasiFDReaddir: writes the native fd of the table entry (wasiFileDescriptorSet) — not modelled")
+    return clears, get_rejects, guard("wasiFDReaddir"), guard("wasiFdFdstatGet"), guard("wasiFDFilestatGet"), whence_first, sync_inval, rejects_nul, rd_closes
 
 
 def lean_list(items):
@@ -426,7 +433,7 @@ def generate(repo):
                "WASI_FDFLAGS_DSYNC", "WASI_FDFLAGS_NONBLOCK", "WASI_FDFLAGS_RSYNC", "WASI_FDFLAGS_SYNC"):
         w(f"def {nm} : Nat := {eval_const(nm, macros, 'wasi.h')}")
     w("")
-    clears, get_rejects, g_rd, g_fs, g_fl, whence_first, sync_inval, rejects_nul = structure_flags(text)
+    clears, get_rejects, g_rd, g_fs, g_fl, whence_first, sync_inval, rejects_nul, rd_closes = structure_flags(text)
     b = lambda x: "true" if x else "false"
     og = lambda x: "none" if x is None else f"some {eval_const(x, macros, 'wasi.h')}"
     w("/-- `wasiFileDescriptorClose` assigns `path = NULL` in the table after `free` -/")
@@ -437,6 +444,8 @@ def generate(repo):
     w(f"def readdirNullPath : Option Nat := {og(g_rd)}")
     w(f"def fdstatNullPath : Option Nat := {og(g_fs)}")
     w(f"def filestatNullPath : Option Nat := {og(g_fl)}")
+    w("/-- `wasiFDReaddir` calls `close(descriptor.fd)` after registering the DIR stream, while the table entry keeps the number -/")
+    w(f"def readdirClosesNativeFd : Bool := {b(rd_closes)}")
     w("/-- `resolvePath` fails for a guest path that contains a NUL byte -/")
     w(f"def resolveRejectsNul : Bool := {b(rejects_nul)}")
     w("/-- fd_seek converts (and rejects) whence before looking the descriptor up -/")
